@@ -28,6 +28,11 @@ PROPS = {
         level_note="Trusted: Lean kernel + standard axioms; Val.WF (valid UTF-8, distinct names per map, <2^32 elements per Vec) are the Rust type guarantees and are hypotheses; HashMap = association list (model), encoder correspondence is modulo map enumeration order (the model re-encodes in the wire order the implementation chose and must reproduce its bytes exactly); correspondence strength is bounded by the generator (see evidence input_distribution). Depends on fix commits F7 (names), F8 (depth), recorded in known_findings.json.",
         assumptions=["Vec lengths < 2^32 (cannot be reached in memory)"],
     ),
+    "C14": dict(
+        lean=["Rml.Props.C14"], families=["amfadv"],
+        level_text="Logic half proved for EVERY byte string (no length bound): C14_terminates (the decoder model is total and its fuel is never exhausted), C14_depth (the deepest recursion level of the instrumented decoder never exceeds MAX_NESTING_DEPTH = 128, however deep the input nests), C14_alloc (values constructed + buffer bytes requested ≤ input length + 65535: counts are never used as sizes, only one u16 string length is trusted before reading), C14_ghost_is_decoder (the instrumented model computes exactly the decoder model's results). Runtime half MEASURED, not proved: the real decoder runs adversarial inputs (nesting len/5, counts 2^32-1, declared string lengths) on a 512 KiB thread stack under a counting allocator.",
+        level_note="Trusted: Lean kernel + standard axioms; that the ghost counters are placed where the Rust code recurses/allocates (inspection of Rml/Model/Amf0Ghost.lean against deserialization.rs); decoder model tied to the code by amf.dec correspondence incl. run-length-encoded deep inputs around the limit; real stack frame sizes and allocator behaviour are measurements (3 frames per nesting level, ≤ 2 KiB per level in the harness build). Depends on fix F8 (depth limit).",
+    ),
     "C12": dict(
         lean=["Rml.Props.C12"], families=["amf"],
         level_text="The AMF0 document is formalised as the inductive relation Spec.Amf0.Encodes (any property order, ECMA arrays with any count, any non-zero true byte). Theorems: C12_encode_spec (every encoder output is in the relation), C12_decode_spec (EVERY encoding in the relation, within the nesting limit, decodes to the value it denotes, consuming everything), C12_unsupported (all 247 other markers are errors at any position). Truncation clause: checked by the oracle at every cut point and by model/implementation correspondence on cuts and mutations; its theorem is not proved yet (see DESIGN.md).",
